@@ -1767,6 +1767,8 @@ class ExtendedToStreamDecorator(CopyStreamResult, StreamSummary, TestControl):
     @property
     def current_tags(self):
         """The currently set tags."""
+        if not self._started:
+            self.startTestRun()
         return self._tags.get_current_tags()
 
     def tags(self, new_tags, gone_tags):
@@ -1775,6 +1777,8 @@ class ExtendedToStreamDecorator(CopyStreamResult, StreamSummary, TestControl):
         :param new_tags: A set of tags to be added to the stream.
         :param gone_tags: A set of tags to be removed from the stream.
         """
+        if not self._started:
+            self.startTestRun()
         self._tags.change_tags(new_tags, gone_tags)
 
     def _now(self):
